@@ -58,6 +58,7 @@ public:
 // E.const.write with lock-guarded mutable data: `good` must stay quiet, `bad` (no lock) and `leak`
 // (reference leaves the locked region) must be flagged
 #include <mutex>
+#include <memory>
 namespace squids{
 class Locked{
   mutable std::mutex mtx;
@@ -67,6 +68,12 @@ public:
   double good(double x) const{ std::lock_guard<std::mutex> g(mtx); cachev=base*x; return cachev; }
   double bad(double x) const{ cachev=base*x; return cachev; }
   const double& leak() const{ std::lock_guard<std::mutex> g(mtx); return cachev; }
+  // a scratch block owned by the object: get() yields a pointer to non-const even in a const member function
+  std::unique_ptr<double[]> scratch;
+  static void fill(double* p){ p[0]=1; }
+  static double peek(const double* p){ return p[0]; }
+  double through_scratch() const{ fill(scratch.get()); return scratch[0]; }
+  double reads_scratch() const{ return peek(scratch.get()); }
 };
 }
 // E.escape: the address of a thread-local object kept in a static shared by all threads
